@@ -257,16 +257,17 @@ def translate(sc, res, trace):
         if kind == "cancel" and pending_react.get(who):
             cancel_in_gap.add(who)
 
-        if kind == "rbegin":
-            if par(who) is None:
-                tick(t)
-                lines = step_lines(i, who, "run")
-                _, S, _, _ = reaction(lines, who)
-                A.append("B_%s" % enc(S))
-                B.append("B~S=%s" % enc(S))
-                phase[who] = "loop" if info[who]["children"] else "over"
-        elif kind == "take":
-            j = e[4]
+        if kind == "rbegin" and par(who) is None:
+            tick(t)
+            lines = step_lines(i, who, "run")
+            _, S, _, _ = reaction(lines, who)
+            A.append("B_%s" % enc(S))
+            B.append("B~S=%s" % enc(S))
+            phase[who] = "loop" if info[who]["children"] else "over"
+        elif kind in ("begin", "rbegin") and par(who) is not None:
+            # the job obtained its window slot and its body begins (one step of its task: the probe on the queue
+            # itself - "take" - is not needed, so the replay does not depend on how Window is implemented)
+            j = who
             taken.add(j)
             tick(t)
             S = []
